@@ -38,6 +38,18 @@ type c10Case struct {
 	// `limit N`, `settime`, assignments, `del ... after D`) fed generated lines,
 	// instead of through the metric API (Int gauges only; expiry 1s, 1h or 24h)
 	ViaProgram bool `json:"via_program,omitempty"`
+	// Later: further rounds on the same store (API-built stores only): some
+	// data are updated again (same or new value, new last-update age; a datum
+	// removed by an earlier pass is created again, unmarked), then another GC
+	// pass runs and is judged like the first
+	Later [][]c10Upd `json:"later,omitempty"`
+}
+
+type c10Upd struct {
+	M    int   `json:"m"`
+	J    int   `json:"j"`
+	AgeS int64 `json:"age_s"`
+	Same bool  `json:"same"` // the value written is the one the datum already holds
 }
 
 type c10Snap struct {
@@ -145,6 +157,20 @@ func runC10x(c c10Case) *vstat.Failure {
 			return f
 		}
 	}
+	// stamps[i][key]: the time of the last update the harness made (API-built stores)
+	stamps := map[int]map[string]int64{}
+	vals := map[int]map[string]int64{}
+	setDatum := func(typ metrics.Type, d datum.Datum, v int64, ts time.Time) {
+		switch typ {
+		case metrics.Int:
+			datum.SetInt(d, v, ts)
+		case metrics.Float:
+			datum.SetFloat(d, float64(v)+0.5, ts)
+		case metrics.String:
+			datum.SetString(d, fmt.Sprint(v), ts)
+		}
+	}
+	c10Key := func(j int) string { return fmt.Sprintf("%q", []string{fmt.Sprintf("l%d", j)}) }
 	for i, cm := range c.Metrics {
 		if c.ViaProgram {
 			break
@@ -152,22 +178,15 @@ func runC10x(c c10Case) *vstat.Failure {
 		typ := []metrics.Type{metrics.Int, metrics.Float, metrics.String}[cm.Typ%3]
 		m := metrics.NewMetric(fmt.Sprintf("m%d", i), "prog", metrics.Gauge, typ, "k")
 		m.Limit = cm.Limit
+		stamps[i], vals[i] = map[string]int64{}, map[string]int64{}
 		for j, cd := range cm.Data {
 			d, err := m.GetDatum(fmt.Sprintf("l%d", j))
 			if err != nil {
 				return vstat.Failf("bad-case", "%v", err)
 			}
 			ts := base.Add(-time.Duration(cd.AgeS) * time.Second)
-			set := func(ts time.Time) {
-				switch typ {
-				case metrics.Int:
-					datum.SetInt(d, cd.Val, ts)
-				case metrics.Float:
-					datum.SetFloat(d, float64(cd.Val)+0.5, ts)
-				case metrics.String:
-					datum.SetString(d, fmt.Sprint(cd.Val), ts)
-				}
-			}
+			set := func(ts time.Time) { setDatum(typ, d, cd.Val, ts) }
+			stamps[i][c10Key(j)], vals[i][c10Key(j)] = ts.UnixNano(), cd.Val
 			if cd.Bumped {
 				set(ts.Add(-100 * time.Hour))
 			}
@@ -192,41 +211,75 @@ func runC10x(c c10Case) *vstat.Failure {
 		}
 		ms = append(ms, m)
 	}
-	before := make([][]c10Snap, len(ms))
-	for i, m := range ms {
-		before[i] = c10Snapshot(m)
-		// the mark in force is the last one set
-		for j, cd := range c.Metrics[i].Data {
-			want := time.Duration(cd.ExpNs)
-			if c.ViaProgram && cd.ExpNs == 1 {
-				want = time.Second
+	later := c.Later
+	if c.ViaProgram {
+		later = nil
+	}
+	for pass := 0; pass <= len(later); pass++ {
+		if pass > 0 {
+			for _, u := range later[pass-1] {
+				if u.M >= len(ms) || u.J >= len(c.Metrics[u.M].Data) {
+					continue
+				}
+				m := ms[u.M]
+				d, err := m.GetDatum(fmt.Sprintf("l%d", u.J))
+				if err != nil {
+					return vstat.Failf("bad-case", "%v", err)
+				}
+				v := vals[u.M][c10Key(u.J)]
+				if !u.Same {
+					v++
+				}
+				ts := base.Add(-time.Duration(u.AgeS) * time.Second)
+				setDatum(m.Type, d, v, ts)
+				stamps[u.M][c10Key(u.J)], vals[u.M][c10Key(u.J)] = ts.UnixNano(), v
 			}
-			key := fmt.Sprintf("%q", []string{fmt.Sprintf("l%d", j)})
+		}
+		before := make([][]c10Snap, len(ms))
+		for i, m := range ms {
+			before[i] = c10Snapshot(m)
+			// a datum's last update is the last one made
 			for _, b := range before[i] {
-				if b.key == key && b.expiry != want {
-					return vstat.Failf("expiry-mark", "metric %d datum l%d carries expiry %v, the last mark set was %v (re-marked: %v)", i, j, b.expiry, want, cd.Remark)
+				if want, ok := stamps[i][b.key]; ok && b.timeNs != want {
+					return vstat.Failf("update-stamp", "pass %d: metric %d datum %s is stamped %v, its last update was made at %v", pass, i, b.key, time.Unix(0, b.timeNs).UTC(), time.Unix(0, want).UTC())
+				}
+			}
+			if pass > 0 {
+				continue
+			}
+			// the mark in force is the last one set
+			for j, cd := range c.Metrics[i].Data {
+				want := time.Duration(cd.ExpNs)
+				if c.ViaProgram && cd.ExpNs == 1 {
+					want = time.Second
+				}
+				key := c10Key(j)
+				for _, b := range before[i] {
+					if b.key == key && b.expiry != want {
+						return vstat.Failf("expiry-mark", "metric %d datum l%d carries expiry %v, the last mark set was %v (re-marked: %v)", i, j, b.expiry, want, cd.Remark)
+					}
 				}
 			}
 		}
-	}
-	t0 := time.Now()
-	if err := s.Gc(); err != nil {
-		return vstat.Failf("gc-error", "%v", err)
-	}
-	t1 := time.Now()
-	// the store still holds exactly the same metric objects
-	n := 0
-	_ = s.Range(func(m *metrics.Metric) error { n++; return nil })
-	if n != len(ms) {
-		return vstat.Failf("metric-set-changed", "store has %d metrics after GC, had %d", n, len(ms))
-	}
-	for i, m := range ms {
-		if s.FindMetricOrNil(m.Name, m.Program) != m {
-			return vstat.Failf("metric-set-changed", "metric %s replaced or gone", m.Name)
+		t0 := time.Now()
+		if err := s.Gc(); err != nil {
+			return vstat.Failf("gc-error", "%v", err)
 		}
-		if f := c10Judge(c.Metrics[i].Limit, before[i], c10Snapshot(m), t0, t1); f != nil {
-			f.Msg = fmt.Sprintf("metric %d (limit %d): %s", i, c.Metrics[i].Limit, f.Msg)
-			return f
+		t1 := time.Now()
+		// the store still holds exactly the same metric objects
+		n := 0
+		_ = s.Range(func(m *metrics.Metric) error { n++; return nil })
+		if n != len(ms) {
+			return vstat.Failf("metric-set-changed", "store has %d metrics after GC, had %d", n, len(ms))
+		}
+		for i, m := range ms {
+			if s.FindMetricOrNil(m.Name, m.Program) != m {
+				return vstat.Failf("metric-set-changed", "metric %s replaced or gone", m.Name)
+			}
+			if f := c10Judge(c.Metrics[i].Limit, before[i], c10Snapshot(m), t0, t1); f != nil {
+				f.Msg = fmt.Sprintf("pass %d, metric %d (limit %d): %s", pass, i, c.Metrics[i].Limit, f.Msg)
+				return f
+			}
 		}
 	}
 	return nil
@@ -354,7 +407,7 @@ func c10RunRaw(raw json.RawMessage) *vstat.Failure {
 }
 
 func TestC10(t *testing.T) {
-	st := vstat.New("C10", "stores of 1-4 metrics with limit in {0..5}, 0-8 data each with last-update ages from a small set (ties common, some in the future), expiry marks in {none, 1ns, 1h, 24h}, some data created earlier and updated later; one Gc(); non-trivial = a metric over its limit that also holds an expiry-marked datum, or ties in time at the limit boundary; distinct by the whole store")
+	st := vstat.New("C10", "stores of 1-4 metrics with limit in {0..5}, 0-8 data each with last-update ages from a small set (ties common, some in the future), expiry marks in {none, 1ns, 1h, 24h}, some data created earlier and updated later (with the value they already hold); Gc(); for API-built stores 0-2 further rounds of updates (same or new value, backdated or fresh) each followed by another Gc(); non-trivial = a metric over its limit that also holds an expiry-marked datum, or ties in time at the limit boundary; distinct by the whole store")
 	st.Assumptions = []string{"GC instant T lies in [t0,t1] around the call; ages are >= 10 s away from every expiry boundary", "any tie-break among equally old data is accepted"}
 	st.Run(t, c10RunRaw, func() {
 		ages := []int64{-100, 0, 10, 10, 100, 3500, 3700, 3700, 7200, 86000, 86800, 200000}
@@ -412,6 +465,25 @@ func TestC10(t *testing.T) {
 					c.Metrics[i].Typ = 0
 				}
 				st.Class("store-built-by-compiled-program")
+			}
+			if !c.ViaProgram {
+				np := rapid.SampledFrom([]int{0, 0, 1, 1, 2}).Draw(rt, "later-passes")
+				for p := 0; p < np; p++ {
+					var ups []c10Upd
+					nu := rapid.IntRange(0, 4).Draw(rt, "later-updates")
+					for k := 0; k < nu; k++ {
+						mi := rapid.IntRange(0, nm-1).Draw(rt, "um")
+						if len(c.Metrics[mi].Data) == 0 {
+							continue
+						}
+						ups = append(ups, c10Upd{M: mi, J: rapid.IntRange(0, len(c.Metrics[mi].Data)-1).Draw(rt, "uj"),
+							AgeS: rapid.SampledFrom(ages).Draw(rt, "uage"), Same: rapid.Bool().Draw(rt, "same")})
+					}
+					c.Later = append(c.Later, ups)
+				}
+				if np > 0 {
+					st.Class("further-gc-passes")
+				}
 			}
 			st.Eval()
 			if nontriv {
